@@ -72,7 +72,9 @@ Record guards := mk_guards {
   g_release_ignores : bool;      (* ReleaseTerminal sets ignoreSignals, RestoreTerminal clears it *)
   g_release_stops_reader : bool; (* ReleaseTerminal cancels the reader and waits for the read loop *)
   g_release_stops_renderer : bool;(* ReleaseTerminal stops the renderer (ticker handshake) before restoring the terminal *)
-  g_restore_keeps_nosig : bool   (* RestoreTerminal does not re-enable signals that WithoutSignals switched off *)
+  g_restore_keeps_nosig : bool;  (* RestoreTerminal does not re-enable signals that WithoutSignals switched off *)
+  g_rz_guarded : bool;           (* listenForResize selects on ctx.Done; checkResize's sends (p.errs, Send) have a ctx alternative *)
+  g_sig_stays : bool             (* handleSignals keeps listening after it has forwarded a signal *)
 }.
 
 Inductive ekind := KRt | KEnv | KCbEnd | KBatchMore.
@@ -116,8 +118,11 @@ Definition sd_step (G : guards) (s : skel) (who : bool) (p : phase) (kill : bool
   match p with
   | Sd0 => (* p.cancel() -- or, when the source no longer cancels first, straight to the wait *)
     [setph (if g_shutdown_cancels_first G then set_ctx s true else s) Sd1]
-  | Sd1 => (* p.handlers.shutdown(): wait for signal handler, Init forwarder, command dispatcher *)
-    if handlers_done s then [setph s Sd2] else []
+  | Sd1 => (* p.handlers.shutdown(): wait for signal handler, Init forwarder, command dispatcher - and the resize
+              listener, which is not a thread of this skeleton: it has ONE blocking point (its select), which has the
+              ctx.Done alternative iff g_rz_guarded, and every send it makes (p.errs, Send) has one too; the context is
+              cancelled by now, so it is done after at most one step of its own and the wait for it does not block *)
+    if handlers_done s && ctx s && g_rz_guarded G then [setph s Sd2] else []
   | Sd2 => (* cancelReader.Cancel(); waitForReadLoop (timeout); Close *)
     let s' := match rd s with RdReading => set_rd s RdDone | _ => s end in
     if g_wait_read_timeout G || (match rd s with RdNone | RdDone | RdReading => true | _ => false end)
@@ -150,10 +155,10 @@ Definition early_return (G : guards) (s : skel) (e : err) : skel :=
 Definition all_kinds : list mkind := [MkUser; MkQuit; MkInt; MkBatch; MkExec].
 
 Definition is_cb (r : runpc) : bool :=
-  match r with RInitCb | RView0Cb | RFilterCb _ | RUpdateCb | RViewCb | RFinalViewCb => true | _ => false end.
+  match r with RInitCb | RView0Cb | RFilterCb _ | RUpdateCb | RViewCb | RFinalViewCb | RExecRun => true | _ => false end.
 
 Definition started (r : runpc) : bool :=
-  match r with RPre | RStartup | RInitCb | RView0Cb | RInitReader => false | _ => true end.
+  match r with RPre | RStartup => false | _ => true end.   (* the renderer has been started (Kill before that races Run's own set-up) *)
 
 Definition is_returned (s : skel) : bool := match run s with RReturned _ => true | _ => false end.
 
@@ -189,9 +194,10 @@ Definition steps (G : guards) (s : skel) : list (ekind * skel) :=
      (if ctx s then [(KRt, set_dec (S (RExit XrCtx)) DCtx)] else []) ++
      (match rd s with RdSendErr => [(KRt, set_dec (set_rd (S (RExit XrReadErr)) RdDone) DReadErr)] | _ => [] end) ++
      map (fun k => (KEnv, S (RFilterCb k))) all_kinds ++
+     [(KEnv, set_dec (S (RExit XrReadErr)) DReadErr)] ++     (* a size query (checkResize) failed: its error arrives on p.errs *)
      (match sg s with
-      | SgSendInt => [(KRt, set_sg (S (RFilterCb MkInt)) SgDone)]
-      | SgSendQuit => [(KRt, set_sg (S (RFilterCb MkQuit)) SgDone)]
+      | SgSendInt => [(KRt, set_sg (S (RFilterCb MkInt)) (if g_sig_stays G then SgWait else SgDone))]
+      | SgSendQuit => [(KRt, set_sg (S (RFilterCb MkQuit)) (if g_sig_stays G then SgWait else SgDone))]
       | _ => [] end) ++
      (match rd s with RdSendMsg => [(KRt, set_rd (S (RFilterCb MkUser)) RdReading)] | _ => [] end)
    | RFilterCb _ => (KCbEnd, S RSelect) :: map (fun k => (KCbEnd, S (RDispatch k))) all_kinds
